@@ -4,7 +4,7 @@ import re
 from lib_facts import place_str, fn_name
 from lib_flow import strip_refs, expr_calls, expr_str
 from roles import roles, direct_sites, callee_body, reaches, RE_ENQUEUE, RE_NOTIFY
-from c01 import _site_label, d_loc, _flag_false_edge_blocks, _writes_true_before, _flag_writes
+from c01 import enq_guarded, _site_label, d_loc, _flag_false_edge_blocks, _writes_true_before, _flag_writes
 import c01
 import c05
 
@@ -88,7 +88,7 @@ def r12_2(ctx, R):
         falseb = _flag_false_edge_blocks(ctx, R, b)
         for bb, t, fn in direct_sites(b, RE_ENQUEUE):
             n += 1
-            ok = any(b.dominates(x, bb) for x in falseb) and _writes_true_before(ctx, R, b, bb)
+            ok = all(enq_guarded(ctx, R, b, bb))
             ctx.ob("R12.2", b, "enqueue-only-on-false->true@%s" % _site_label(b, bb), ok, b.loc(bb))
     ctx.floor("R12.2", "enqueue-sites", n, 1)
     mark = R.mark_fn
